@@ -82,6 +82,13 @@ CHECKS["C18"] = dict(
    note="Trusted: Go regexp. The third-party example generator ignores anchors, so 'Example matches P' is asserted only for patterns without inner anchors.",
    design="4/C18")
 
+CHECKS["C09"] = dict(
+   category="exploration", engine="B small-scope enumeration of type graphs with a least-fixpoint reference; worker-death = non-termination",
+   technique="exhaustive enumeration of all type graphs over 1-3 (4) user types x edge forms x missing-node subsets against a least-fixpoint inhabitation model; process-level crash/hang detection",
+   text="Every type graph over a root (5 forms) and up to 3 (thorough 4) user types whose bodies range over scalar, alias, or-shortcut, array, allOf parent, additionalProperties type, key shortcut and one/two-slot objects (required / optional / array / or / nested / nullable references), with every subset (quick n=3: every single type) left un-added, plus ring / chain-into-ring / diamond families up to 6 types: Check must fail with 1302 naming a missing type exactly when a reachable type is missing, UsedUserTypes must equal the names in the root text, Check must reject exactly when the least-fixpoint model leaves the root uninhabited and must not report recursion when every type is inhabited, and on every accepted graph Check, Validate and Example must return (a worker death or 40 s without progress is a violation).",
+   note="Trusted: ref/typegraph. Not asserted: graphs whose uninhabited types are not required by the root; which of several problems of one graph is reported first. Known finding: multi-hop required recursion is accepted (pinned by the repository's own TestSchema_Example).",
+   design="4/C09")
+
 NOT_YET = {
 }
 
